@@ -790,6 +790,9 @@ pub fn check(prop: &str, tier: &str, extra: &[String]) -> i32 {
             println!("  diverged x{v}: {k}");
         }
     }
+    if let Some(n) = agg.probes.get("MODEL-SELF-CHECK-MISMATCH") {
+        harness_error = Some(format!("the rights-level and the name-level formulations of the reference model disagreed {n} times"));
+    }
     if let Some(e) = harness_error {
         eprintln!("HARNESS ERROR: {e}");
         if exit_code == 0 {
@@ -836,6 +839,13 @@ pub fn selftest() -> i32 {
             let (res, _) = crate::run::run_seed("C11", 1000 + seed, false, None);
             if res.unobservable > 0 {
                 errs.push(format!("seed {seed}: {} unobservable structural checks", res.unobservable));
+            }
+            let (r1, _) = crate::run::run_seed("C01", 2000 + seed, false, None);
+            if r1.probes.iter().any(|(k, _)| k == "MODEL-SELF-CHECK-MISMATCH") {
+                errs.push(format!("seed {}: rights-level and name-level model disagree", 2000 + seed));
+            }
+            if !r1.checks.iter().any(|(k, v)| k == "model-self-check" && *v > 0) && seed == 0 {
+                errs.push("model self-check never ran".to_string());
             }
         }
         errs
